@@ -645,6 +645,82 @@ __wrap_explicit_bzero (void *p, size_t n)
   __real_explicit_bzero (p, n);
 }
 
+/* The other secure-erase primitives configure may find instead of explicit_bzero (C23 memset_explicit, Annex K /
+   BSD memset_s, NetBSD explicit_memset): this C library has none of them, so builds configured for one get these
+   conforming definitions.  */
+void *memset_explicit (void *s, int c, size_t n);
+void *
+memset_explicit (void *s, int c, size_t n)
+{
+  volatile unsigned char *q = s;
+  for (size_t i = 0; i < n; i++) q[i] = (unsigned char) c;
+  return s;
+}
+int memset_s (void *s, size_t smax, int c, size_t n);
+int
+memset_s (void *s, size_t smax, int c, size_t n)
+{
+  volatile unsigned char *q = s;
+  if (!s) return EINVAL;
+  for (size_t i = 0; i < n && i < smax; i++) q[i] = (unsigned char) c;
+  return n > smax ? EINVAL : 0;
+}
+void *explicit_memset (void *s, int c, size_t n);
+void *
+explicit_memset (void *s, int c, size_t n)
+{
+  return memset_explicit (s, c, n);
+}
+
+/* C library functions that POSIX marks MT-unsafe (they use or change process-wide state): a re-entrant libcrypt
+   call that reaches one of them cannot be safe under concurrency whatever a finite schedule happened to show
+   (and uninstrumented libc state is invisible to the race detector).  Reaching one from inside the library
+   ends the worker with a message.  */
+static void
+mt_unsafe (const char *name)
+{
+  static const char msg[] = "MT-UNSAFE-LIBC-CALL from inside libcrypt: ";
+  (void) !write (2, msg, sizeof msg - 1);
+  (void) !write (2, name, strlen (name));
+  (void) !write (2, "\n", 1);
+  abort ();
+}
+char *__real_setlocale (int, const char *);
+char *
+__wrap_setlocale (int c, const char *l)
+{
+  if (g_inlib) mt_unsafe ("setlocale");
+  return __real_setlocale (c, l);
+}
+char *__real_strtok (char *, const char *);
+char *
+__wrap_strtok (char *s, const char *d)
+{
+  if (g_inlib) mt_unsafe ("strtok");
+  return __real_strtok (s, d);
+}
+char *__real_l64a (long);
+char *
+__wrap_l64a (long v)
+{
+  if (g_inlib) mt_unsafe ("l64a");
+  return __real_l64a (v);
+}
+struct lconv *__real_localeconv (void);
+struct lconv *
+__wrap_localeconv (void)
+{
+  if (g_inlib) mt_unsafe ("localeconv");
+  return __real_localeconv ();
+}
+int __real_rand (void);
+int
+__wrap_rand (void)
+{
+  if (g_inlib) mt_unsafe ("rand");
+  return __real_rand ();
+}
+
 static void
 led_counts (long *heap, long *maps)
 {
@@ -1322,6 +1398,8 @@ cmd_mt (int argc, char **argv)
   mt_only_mid = argc >= 6 ? atoi (argv[5]) : -1;
   if (nt < 1 || nt > 64) { out_printf ("err threads"); return; }
   struct mtthread *th = calloc ((size_t) nt, sizeof *th);
+  /* process-wide state the calls have no business changing: the locale */
+  char *loc_before = strdup (setlocale (LC_ALL, 0) ? setlocale (LC_ALL, 0) : "?");
   pthread_barrier_init (&mt_barrier, 0, (unsigned) nt);
   for (int i = 0; i < nt; i++)
     {
@@ -1439,7 +1517,11 @@ cmd_mt (int argc, char **argv)
               }
           }
       }
-  out_printf ("ok calls=%ld mism=%ld overlaps=%ld mpairs=%ld ossalts=%ld osdups=%ld osflat=%ld", calls, mism, overlaps, distinct_pairs, os_salts, os_dups, os_flat);
+  const char *loc_after = setlocale (LC_ALL, 0);
+  int loc_same = loc_after && !strcmp (loc_before, loc_after);
+  out_printf ("ok calls=%ld mism=%ld overlaps=%ld mpairs=%ld ossalts=%ld osdups=%ld osflat=%ld loc=%d", calls, mism, overlaps, distinct_pairs, os_salts, os_dups, os_flat, loc_same);
+  if (!loc_same) { out_hex ("locb", loc_before, strlen (loc_before)); out_hex ("loca", loc_after ? loc_after : "?", strlen (loc_after ? loc_after : "?")); }
+  free (loc_before);
   if (first[0]) out_hex ("first", first, strlen (first));
   for (int i = 0; i < nt; i++) free (th[i].log);
   free (th);
@@ -1716,10 +1798,17 @@ handle (char *line)
       if (g) snprintf (gcopy, sizeof gcopy, "%s", g);
       char *h = g ? crypt_fp (phrase, g) : 0;
       int e = errno;
+      char h1[400] = "";
+      if (h) snprintf (h1, sizeof h1, "%s", h);
+      /* crypt.h: the two functions use separate static buffers - the generated setting is still there after the
+         hash was computed, and the same pointer can be used again (verification: crypt (phrase, setting) twice) */
+      int kept = g ? !strcmp (g, gcopy) : -1;
+      char *hh = g ? crypt_fp (phrase, g) : 0;
+      int again = (h && hh) ? !strcmp (h1, hh) : (!h && !hh) ? 1 : 0;
       g_inlib = 0;
-      out_printf ("ok r=%c e=%d", h ? 'S' : 'N', e);
+      out_printf ("ok r=%c e=%d kept=%d again=%d", h ? 'S' : 'N', e, kept, again);
       if (g) out_hex ("g", gcopy, strlen (gcopy)); else out_printf (" g=-");
-      if (h) out_hex ("o", h, strnlen (h, 384)); else out_printf (" o=-");
+      if (h) out_hex ("o", h1, strnlen (h1, 384)); else out_printf (" o=-");
       free (pb); free (rb); free (ph); free (prefix); free (phrase); free (rbytes);
     }
 #ifdef VW_SO
